@@ -32,9 +32,9 @@ type Loaded struct {
 func harnessOverlay(dirs []string) (map[string][]byte, map[string]string, error) {
 	ov := map[string][]byte{}
 	real := map[string]string{}
-	prims, err := os.ReadFile(filepath.Join(verifDir, "harness", "prims.go.tmpl"))
-	if err != nil {
-		return nil, nil, err
+	tmpls, _ := filepath.Glob(filepath.Join(verifDir, "harness", "*.go.tmpl"))
+	if len(tmpls) == 0 {
+		return nil, nil, fmt.Errorf("no harness templates")
 	}
 	for _, d := range dirs {
 		hd := filepath.Join(verifDir, "harness", strings.ReplaceAll(d, "/", "_"))
@@ -66,9 +66,16 @@ func harnessOverlay(dirs []string) (map[string][]byte, map[string]string, error)
 		if pkgName == "" {
 			return nil, nil, fmt.Errorf("no harness files in %s", hd)
 		}
-		v := filepath.Join(repoDir, d, "zz_verif_prims.go")
-		ov[v] = []byte(strings.Replace(string(prims), "package PKGNAME", "package "+pkgName, 1))
-		real[v] = "prims:" + pkgName
+		for _, t := range tmpls {
+			src, err := os.ReadFile(t)
+			if err != nil {
+				return nil, nil, err
+			}
+			base := strings.TrimSuffix(filepath.Base(t), ".go.tmpl")
+			v := filepath.Join(repoDir, d, "zz_verif_tmpl_"+base+".go")
+			ov[v] = []byte(strings.Replace(string(src), "package PKGNAME", "package "+pkgName, 1))
+			real[v] = "tmpl:" + pkgName + ":" + base
+		}
 	}
 	return ov, real, nil
 }
